@@ -290,58 +290,19 @@ def constants(L, R, qs):
     box = KBox(L)
     r1 = box.instantiate('q120_b_from_znx64_simple', K['q120_b_from_znx64_simple'], {'nn': 1}, 'accel', expand='values')
     st = final_state(r1, ('out',)).get('res', {})
+    from ..congr import decide, word
+    X = ('x', 0, 8)
     for k in range(4):
         v = st.get(8 * k, (8, None))[1]
-        bad = unk = None
-        if v is None:
-            bad = 'lane not written'
-        else:
-            # the coefficient is read as the unsigned word u; the mathematical input is u (u < 2^63) or u - 2^64.
-            # Ranges of u are bisected until, on each piece, no operation can wrap (E5), the sign of the wrap-free
-            # reading of the lane is known, and the congruence is a polynomial identity.
-            work = [(0, (1 << 63) - 1), (1 << 63, (1 << 64) - 1)]
-            pieces = 0
-            while work and not bad and pieces < 4000:
-                lo, hi = work.pop()
-                pieces += 1
-                I = Intervals(lambda nm, off, size, lo=lo, hi=hi: (lo, hi) if nm == 'x' else (0, (1 << (8 * size)) - 1), fmt)
-
-                def rng(t, I=I):
-                    return I.ev_all([t])[0]
-
-                def bound(t, I=I):
-                    r_ = I.ev_all([t])[0]
-                    return r_[1] if r_ is not None and r_[0] >= 0 else None
-
-                mp = ModPoly(qs[k], None, bound, rng)
-                rv = rng(v)
-                mixed = rv is None or (rv[0] < 0 <= rv[1])
-                if I.findings or mixed:
-                    if lo == hi:
-                        bad = 'coefficient word %d: %s' % (lo, repr(I.findings[0])[:200] if I.findings else 'lane range %r' % (rv,))
-                    else:
-                        mid = (lo + hi) // 2
-                        work += [(lo, mid), (mid + 1, hi)]
-                    continue
-                p = mp.of(v)
-                if rv[1] < 0:
-                    p = mp.add(p, {(): (1 << 64) % qs[k]})      # the stored word is the reading + 2^64
-                want = mp.add(mp.of(sym('in', 'x', 0, 8)), {(): (1 << 64) % qs[k]}, -(1 if lo >= (1 << 63) else 0))
-                if p != want and mp.undecided(p):
-                    unk = unk or 'for coefficient words in [%d, %d] lane %d is %s: contains an operation the congruence rewriting does not model' % (
-                        lo, hi, k, mp.show(p))
-                elif p != want:
-                    bad = 'for coefficient words in [%d, %d] (%s inputs) lane %d is %s, the input is %s (mod q%d)' % (
-                        lo, hi, 'negative' if lo >= (1 << 63) else 'non-negative', k, mp.show(p), mp.show(want), k + 1)
-            if work and not bad:
-                unk = unk or 'range splitting did not converge (%d pieces)' % pieces
         subj = 'q120_b_from_znx64_simple lane %d' % k
-        if bad:
-            R.ob('int64-to-residue-lane-is-congruent', subj, 'refuted', detail=bad, key='q120_b_from_znx64_simple:lane%d' % k)
-        elif unk:
-            R.ob('int64-to-residue-lane-is-congruent', subj, 'unknown', detail=unk)
+        if v is None:
+            R.ob('int64-to-residue-lane-is-congruent', subj, 'refuted', detail='lane not written', key='q120_b_from_znx64_simple:lane%d' % k)
+            continue
+        status, detail = decide(v, qs[k], lambda mp, case: word(mp, X, case), {X: True})
+        if status == 'refuted':
+            R.ob('int64-to-residue-lane-is-congruent', subj, 'refuted', detail=detail, key='q120_b_from_znx64_simple:lane%d' % k)
         else:
-            R.ob('int64-to-residue-lane-is-congruent', subj, 'holds')
+            R.ob('int64-to-residue-lane-is-congruent', subj, status, detail=detail)
 
 
 def module_level(L, R, tier):
